@@ -292,7 +292,13 @@ def slicing_check(ctx, rng, n):
             kinds.append(kind)
             mults.append(mult)
         fp = flowpath.FlowPath(times, np.ones(ntime), np.ones(ntime))
-        fp.add_panel_from_object(panel, None)
+        desc0 = {"kinds": kinds, "nr": nr, "nt": nt, "nz": nz, "ntime": ntime, "names": names}
+        try:
+            fp.add_panel_from_object(panel, None)
+        except Exception as e:   # a valid panel: the real code must accept it
+            ctx.case(("slicing", c, tuple(kinds), nr, nt, nz), tag="add_panel_from_object/raised")
+            bad.append((desc0, "add_panel_from_object raises %s: %s" % (type(e).__name__, str(e)[:120])))
+            continue
         link, man = fp.chain[-2], fp.chain[-1]
         got = np.asarray(link.metal_temp)
         exp = np.zeros((ntime, ntube, nt, nz))
